@@ -1,87 +1,148 @@
 (** C17 - Stored ciphertexts are authenticated and bound to the right
     passphrase.  Property theorems only; proofs are in Crypto/SnaclProofs.v.
 
-    The primitives (secretbox Seal/Open, scrypt, sha256) are universally
-    quantified; the ideal laws a theorem relies on are its explicit premises
-    ([law_...], defined in Crypto/Snacl.v).  Their cryptographic strength is
-    NOT proved here: the theorems are about the wrapper logic of snacl.go,
-    for every primitive satisfying the named laws (the toy instance at the
-    end satisfies all of them, so no theorem is vacuous). *)
+    WHAT EACH THEOREM RESTS ON (review round 3, item (b)).  Three kinds of
+    ground occur, named in the comment of every theorem:
+
+    (L) IDEAL LAWS of the primitives, explicit premises [law_...] (defined in
+        Crypto/Snacl.v).  [law_open_seal], [law_open_only_sealed],
+        [law_kdf_hmac], [law_kdf_domain] are exact properties of
+        XSalsa20-Poly1305 / PBKDF2-HMAC / scrypt.Key as functions.
+        [law_seal_binds], [law_seal_no_near], [law_seal_no_prefix],
+        [law_kdf_inj], [law_hash_inj] are IDEALISATIONS: they are false for
+        the real Poly1305, scrypt and SHA-256 by counting (collisions exist,
+        they only cannot be found).  A theorem with such a premise therefore
+        applies literally only to primitives like the toy instance
+        (C17_laws_satisfiable); for the real code it says "the wrapper adds
+        no way to accept a forgery / another passphrase beyond a collision of
+        the primitive".  The cryptographic strength itself is NOT proved.
+    (W) WRAPPER LOGIC of snacl.go / waddrmgr as transcribed in Crypto/Snacl.v
+        (nonce ++ box layout, length check, which value is handed to the kdf,
+        what is compared, the 88-byte codec, key selection).  The theorems
+        about Decrypt and DeriveKey are stated on [decrypt_c], [derive_key_c],
+        [new_secret_key_c] AT THE FACTS REGENERATED FROM THE SOURCE
+        ([snacl_facts] = Generated/SnaclFacts.v: the passphrase reaches
+        scrypt.Key unchanged; DeriveKey compares the whole digest; Decrypt
+        returns an error when secretbox.Open fails).  Each needs its fact
+        ([eq_refl] below is the check that the regenerated value is the
+        required one): a source change that trims / folds / truncates the
+        passphrase, compares a digest prefix or ignores Open's result makes
+        the extractor regenerate another value and these theorems stop
+        checking.  C17_fact_..._needed show that each fact is necessary.
+    (C) CORRESPONDENCE (this run, not a theorem): that the transcription and
+        the ideal laws describe what the built code does on the generated
+        inputs - every bit flip and truncation of every ciphertext, every
+        near-miss passphrase, every bit flip of the stored parameters,
+        through snacl and through waddrmgr.  The clause "the REAL secretbox /
+        scrypt / sha256 reject" rests on (C) and the oracle alone.
+
+    The property demands "fails with an error instead of returning data":
+    the theorems say [fails], not which error (review (e)); the exact error
+    values of the model are lemmas of SnaclProofs.v (decrypt_truncated ...)
+    and are not compared with the implementation. *)
 From Verif Require Import Base.Prelude Crypto.Snacl Crypto.SnaclProofs.
 Local Open Scope N_scope.
 
 (** Decrypting what was encrypted under the same key returns the original
     bytes (every key, every 24-byte nonce the random source delivers, every
-    plaintext including the empty one). *)
+    plaintext including the empty one).
+    Rests on: (L) law_open_seal (exact); (W) layout nonce ++ box and the split
+    at 24.  Needs none of the three code facts (holds for every value of
+    them: the success path does not depend on them).  Whether the real Open
+    inverts the real Seal: (C). *)
 Theorem C17_roundtrip : forall seal open, law_open_seal seal open ->
   forall k n m c, length n = NonceSize ->
-    encrypt seal k (Some n) m = Ok c -> decrypt open k c = Ok m.
+    encrypt seal k (Some n) m = Ok c -> decrypt_c snacl_facts open k c = Ok m.
 Proof.
   intros seal open L k n m c Hn H. injection H as <-.
-  exact (decrypt_encrypt seal open L k n m Hn).
+  exact (c_roundtrip snacl_facts seal open L k n m Hn).
 Qed.
 Print Assumptions C17_roundtrip.
 
 Theorem C17_roundtrip_empty : forall seal open, law_open_seal seal open ->
-  forall k n, length n = NonceSize -> decrypt open k (encrypt_with seal k n []) = Ok [].
-Proof. intros seal open L k n Hn. exact (decrypt_encrypt seal open L k n [] Hn). Qed.
+  forall k n, length n = NonceSize -> decrypt_c snacl_facts open k (encrypt_with seal k n []) = Ok [].
+Proof. intros seal open L k n Hn. exact (c_roundtrip snacl_facts seal open L k n [] Hn). Qed.
 Print Assumptions C17_roundtrip_empty.
 
-(** Decryption under any other key fails with an error. *)
+(** Decryption under any other key fails with an error.
+    Rests on: (L) law_open_only_sealed (exact) and law_seal_binds
+    (IDEALISED: a box commits to its key); (W) fact "Decrypt checks Open"
+    (regenerated; without it see C17_fact_open_checked_needed).  For the real
+    Poly1305: (C), every generated ciphertext under 6 to 258 other keys. *)
 Theorem C17_wrong_key : forall seal open,
   law_open_only_sealed seal open -> law_seal_binds seal ->
   forall k k' n m, length n = NonceSize -> k' <> k ->
-    decrypt open k' (encrypt_with seal k n m) = Err ErrDecryptFailed.
-Proof. exact decrypt_wrong_key. Qed.
+    fails (decrypt_c snacl_facts open k' (encrypt_with seal k n m)).
+Proof. exact (c_wrong_key snacl_facts eq_refl). Qed.
 Print Assumptions C17_wrong_key.
 
-(** Every single-bit flip of every byte of nonce ‖ box fails with an error
-    (more generally: every modification of one byte). *)
+(** Every single-bit flip of every byte of nonce ++ box fails with an error
+    (more generally: every modification of one byte).
+    Rests on: (L) law_open_only_sealed (exact), law_seal_binds and
+    law_seal_no_near (IDEALISED); (W) the split at 24 and the fact "Decrypt
+    checks Open".  For the real primitive: (C), EVERY bit of every generated
+    ciphertext. *)
 Theorem C17_bit_flip : forall seal open,
   law_open_only_sealed seal open -> law_seal_binds seal -> law_seal_no_near seal ->
   forall k n m i j, length n = NonceSize -> (i < length (encrypt_with seal k n m))%nat ->
-    decrypt open k (flip_bit (encrypt_with seal k n m) i j) = Err ErrDecryptFailed.
-Proof. exact decrypt_bit_flipped. Qed.
+    fails (decrypt_c snacl_facts open k (flip_bit (encrypt_with seal k n m) i j)).
+Proof. exact (c_bit_flip snacl_facts eq_refl). Qed.
 Print Assumptions C17_bit_flip.
 
 Theorem C17_byte_modified : forall seal open,
   law_open_only_sealed seal open -> law_seal_binds seal -> law_seal_no_near seal ->
   forall k n m i mask, length n = NonceSize -> (i < length (encrypt_with seal k n m))%nat ->
     mask <> 0 ->
-    decrypt open k (xor_at (encrypt_with seal k n m) i mask) = Err ErrDecryptFailed.
-Proof. exact decrypt_one_byte_modified. Qed.
+    fails (decrypt_c snacl_facts open k (xor_at (encrypt_with seal k n m) i mask)).
+Proof. exact (c_byte_modified snacl_facts eq_refl). Qed.
 Print Assumptions C17_byte_modified.
 
-(** Every strict truncation fails with an error: ErrMalformed below the
-    nonce size, ErrDecryptFailed from there on. *)
+(** Every strict truncation fails with an error (in the model: ErrMalformed
+    below the nonce size, ErrDecryptFailed from there on - lemma
+    decrypt_truncated; which of the two is not part of the property).
+    Rests on: (L) law_open_only_sealed (exact), law_seal_no_prefix
+    (IDEALISED); (W) the length check, the split and the fact "Decrypt checks
+    Open".  Real primitive: (C), EVERY truncation length. *)
 Theorem C17_truncation : forall seal open,
   law_open_only_sealed seal open -> law_seal_no_prefix seal ->
   forall k n m t, length n = NonceSize -> (t < length (encrypt_with seal k n m))%nat ->
-    decrypt open k (firstn t (encrypt_with seal k n m))
-    = Err (if (t <? NonceSize)%nat then ErrMalformed else ErrDecryptFailed).
-Proof. exact decrypt_truncated. Qed.
+    fails (decrypt_c snacl_facts open k (firstn t (encrypt_with seal k n m))).
+Proof. exact (c_truncation snacl_facts eq_refl). Qed.
 Print Assumptions C17_truncation.
 
 (** Error instead of data, for arbitrary input: Decrypt returns either data
-    or one of its two errors, and data only for an input that is exactly the
-    honest ciphertext of that data under this key and the carried nonce. *)
+    or an error, and data only for an input that is exactly the honest
+    ciphertext of that data under this key and the carried nonce.
+    Rests on: (L) law_open_only_sealed only (exact: Open recomputes the
+    authenticator of what it is given) - no idealised law; (W) the fact
+    "Decrypt checks Open". *)
 Theorem C17_only_honest_ciphertexts_decrypt : forall seal open,
   law_open_only_sealed seal open ->
   forall k c,
-    ((exists m, decrypt open k c = Ok m) \/ decrypt open k c = Err ErrMalformed
-     \/ decrypt open k c = Err ErrDecryptFailed) /\
-    forall m, decrypt open k c = Ok m ->
+    ((exists m, decrypt_c snacl_facts open k c = Ok m) \/ fails (decrypt_c snacl_facts open k c)) /\
+    forall m, decrypt_c snacl_facts open k c = Ok m ->
       c = encrypt_with seal k (firstn NonceSize c) m /\ length (firstn NonceSize c) = NonceSize.
-Proof.
-  intros seal open L k c. split.
-  - exact (decrypt_outcomes open k c).
-  - intros m. exact (decrypt_only_honest seal open L k c m).
-Qed.
+Proof. exact (c_only_honest snacl_facts eq_refl). Qed.
 Print Assumptions C17_only_honest_ciphertexts_decrypt.
+
+(** The fact "Decrypt checks Open" is necessary: for code that ignores the
+    result of secretbox.Open EVERY input of at least 24 bytes decrypts - under
+    every key, after every bit flip and truncation down to the nonce.
+    Rests on: (W) only (no law); it is the model of the mutated code, used by
+    the correspondence when the extractor regenerates [false]. *)
+Theorem C17_fact_open_checked_needed : forall cf open k c,
+  cf_open_checked cf = false -> (NonceSize <= length c)%nat ->
+  exists m, decrypt_c cf open k c = Ok m.
+Proof. intros cf open k c. exact (unchecked_open_decrypts_anything cf open k c). Qed.
+Print Assumptions C17_fact_open_checked_needed.
 
 (** Two encryptions never yield equal ciphertexts provided the random source
     never repeats a nonce (that is the random source's obligation, stated as
-    the hypothesis [n <> n']); no cryptographic premise. *)
+    the hypothesis [n <> n']).
+    Rests on: (W) only - "the nonce is the first 24 bytes of the output", i.e.
+    different prefixes differ; no cryptographic premise and no content beyond
+    the layout.  That crypto/rand does not repeat: (C), 8 encryptions per case
+    pairwise compared, and otherwise trusted. *)
 Theorem C17_distinct_nonces_distinct_ciphertexts : forall seal k k' n n' m m',
   length n = NonceSize -> length n' = NonceSize -> n <> n' ->
   encrypt_with seal k n m <> encrypt_with seal k' n' m'.
@@ -94,75 +155,100 @@ Print Assumptions C17_distinct_nonces_distinct_ciphertexts.
     longer passphrase).  So, on any SecretKey value with the same parameters
     (after Zero, after Unmarshal): the creating passphrase re-derives the same
     key; a passphrase is accepted IF AND ONLY IF it has the creating
-    passphrase's key block; every other one gets ErrInvalidPassword. *)
-Theorem C17_passphrase_exact : forall kdf hash,
+    passphrase's key block; every other one gets ErrInvalidPassword.
+    Rests on: (L) law_kdf_inj and law_hash_inj (IDEALISED: scrypt and SHA-256
+    collision-free), law_kdf_hmac, law_kdf_domain (exact); (W) the facts
+    "passphrase bytes reach the kdf unchanged" (at creation and at
+    verification) and "the whole digest is compared" (regenerated; [pre] is
+    whatever the code would apply otherwise and is irrelevant here).  The
+    acceptance of the creator (first conjunct) needs no law.  Real scrypt and
+    SHA-256, and every near miss of every base passphrase: (C). *)
+Theorem C17_passphrase_exact : forall pre kdf hash,
   law_kdf_inj kdf hash -> law_kdf_hmac kdf hash -> law_kdf_domain kdf -> law_hash_inj hash ->
-  forall pw s n r p sk sk', new_secret_key kdf hash pw (Some s) n r p = Ok sk ->
+  forall pw s n r p sk sk', new_secret_key_c snacl_facts pre kdf hash pw (Some s) n r p = Ok sk ->
     sk_params sk' = sk_params sk ->
-    derive_key kdf hash sk' pw = (sk, None) /\
+    derive_key_c snacl_facts pre kdf hash sk' pw = (sk, None) /\
     forall pw',
       (hmac_key_block hash pw' <> hmac_key_block hash pw ->
-       snd (derive_key kdf hash sk' pw') = Some ErrInvalidPassword) /\
-      (snd (derive_key kdf hash sk' pw') = None <->
+       snd (derive_key_c snacl_facts pre kdf hash sk' pw') = Some ErrInvalidPassword) /\
+      (snd (derive_key_c snacl_facts pre kdf hash sk' pw') = None <->
        hmac_key_block hash pw' = hmac_key_block hash pw).
-Proof.
-  intros kdf hash L1 L2 L3 L4 pw s n r p sk sk' H HP. split.
-  - exact (derive_key_accepts_creator kdf hash pw s n r p sk sk' H HP).
-  - intros pw'. split.
-    + exact (derive_key_rejects_other kdf hash L1 L3 L4 pw s n r p sk sk' pw' H HP).
-    + exact (derive_key_exact kdf hash L1 L2 L3 L4 pw s n r p sk sk' pw' H HP).
-Qed.
+Proof. intros pre. exact (c_passphrase_exact snacl_facts pre eq_refl eq_refl). Qed.
 Print Assumptions C17_passphrase_exact.
 
 (** The property's clause "accepts only the exact passphrase", outside the
     recorded finding K = "same HMAC key block": among passphrases of at most
     64 bytes that do not end in a NUL byte, exactly the creating passphrase is
     accepted (every bit flip, case change, dropped, added or swapped non-NUL
-    byte of such a passphrase is rejected). *)
-Theorem C17_passphrase_exact_outside_K : forall kdf hash,
+    byte, every appended / prepended / stripped space, tab, CR, LF of such a
+    passphrase is rejected).
+    Rests on: as C17_passphrase_exact without law_kdf_hmac. *)
+Theorem C17_passphrase_exact_outside_K : forall pre kdf hash,
   law_kdf_inj kdf hash -> law_kdf_domain kdf -> law_hash_inj hash ->
-  forall pw s n r p sk sk' pw', new_secret_key kdf hash pw (Some s) n r p = Ok sk ->
+  forall pw s n r p sk sk' pw', new_secret_key_c snacl_facts pre kdf hash pw (Some s) n r p = Ok sk ->
     sk_params sk' = sk_params sk ->
     (length pw <= 64)%nat -> (length pw' <= 64)%nat -> last pw 1 <> 0 -> last pw' 1 <> 0 ->
-    pw' <> pw -> snd (derive_key kdf hash sk' pw') = Some ErrInvalidPassword.
-Proof.
-  intros kdf hash L1 L3 L4 pw s n r p sk sk' pw' H HP B B' Z Z' Hne.
-  apply (derive_key_rejects_other kdf hash L1 L3 L4 pw s n r p sk sk' pw' H HP).
-  intros E. apply Hne. exact (hmac_key_block_plain hash pw' pw B' B Z' Z E).
-Qed.
+    pw' <> pw -> snd (derive_key_c snacl_facts pre kdf hash sk' pw') = Some ErrInvalidPassword.
+Proof. intros pre. exact (c_passphrase_exact_outside_K snacl_facts pre eq_refl eq_refl). Qed.
 Print Assumptions C17_passphrase_exact_outside_K.
 
 (** ... and refuted inside K, for every kdf into which the passphrase enters
     through its HMAC key block only (exact for scrypt): a passphrase shorter
     than 64 bytes followed by a NUL byte is accepted and yields the same key.
-    (Real snacl: NewSecretKey("password") accepts DeriveKey("password\000").) *)
-Theorem C17_refuted_trailing_nul : forall kdf hash, law_kdf_hmac kdf hash ->
-  forall pw s n r p sk sk', new_secret_key kdf hash pw (Some s) n r p = Ok sk ->
+    (Real snacl: NewSecretKey("password") accepts DeriveKey("password\000").)
+    Rests on: (L) law_kdf_hmac (exact); (W) the two passphrase facts. *)
+Theorem C17_refuted_trailing_nul : forall pre kdf hash, law_kdf_hmac kdf hash ->
+  forall pw s n r p sk sk', new_secret_key_c snacl_facts pre kdf hash pw (Some s) n r p = Ok sk ->
     sk_params sk' = sk_params sk -> (length pw < 64)%nat ->
-    pw ++ [0] <> pw /\ derive_key kdf hash sk' (pw ++ [0]) = (sk, None).
-Proof.
-  intros kdf hash L2 pw s n r p sk sk' H HP B. split.
-  - intros E. apply (f_equal (@length N)) in E. rewrite app_length in E. simpl in E. lia.
-  - apply (derive_key_accepts_equivalent kdf hash L2 pw s n r p sk sk' (pw ++ [0]) H HP).
-    exact (hmac_key_block_trailing_nul hash pw B).
-Qed.
+    pw ++ [0] <> pw /\ derive_key_c snacl_facts pre kdf hash sk' (pw ++ [0]) = (sk, None).
+Proof. intros pre. exact (c_refuted_trailing_nul snacl_facts pre eq_refl eq_refl). Qed.
 Print Assumptions C17_refuted_trailing_nul.
 
-Theorem C17_zero_then_rederive : forall kdf hash pw s n r p sk,
-  new_secret_key kdf hash pw (Some s) n r p = Ok sk ->
+(** The fact "passphrase bytes reach the kdf unchanged" is necessary: code
+    that applies a function [pre] first (TrimRight "\r\n", ToLower, a
+    truncation ...) accepts EVERY passphrase with the same image as the
+    creating one (P and P ++ "\n"; every case variant ...), whatever the kdf.
+    Rests on: (W) only, no law. *)
+Theorem C17_fact_pw_unchanged_needed : forall cf pre kdf hash pw pw' s n r p sk sk',
+  cf_pw_unchanged cf = false -> pre pw' = pre pw ->
+  new_secret_key_c cf pre kdf hash pw (Some s) n r p = Ok sk -> sk_params sk' = sk_params sk ->
+  derive_key_c cf pre kdf hash sk' pw' = (sk, None).
+Proof. intros cf pre. exact (preprocessed_passphrase_accepts_preimages cf pre). Qed.
+Print Assumptions C17_fact_pw_unchanged_needed.
+
+(** The fact "the whole digest is compared" is necessary: code comparing the
+    first [cmp] bytes only accepts, with the creating passphrase, stored
+    parameters whose digest was modified at any byte from [cmp] on (and they
+    do differ from the stored ones): the digest no longer binds the key.
+    Rests on: (W) only, no law. *)
+Theorem C17_fact_full_digest_needed : forall cf pre kdf hash pw s n r p sk sk' cmp i mask,
+  cf_digest_cmp cf = Some cmp -> (cmp <= i)%nat ->
+  new_secret_key_c cf pre kdf hash pw (Some s) n r p = Ok sk ->
+  sk_params sk' = {| salt := s; digest := xor_at (digest (sk_params sk)) i mask;
+                     pN := n; pR := r; pP := p |} ->
+  snd (derive_key_c cf pre kdf hash sk' pw) = None /\
+  ((i < length (digest (sk_params sk)))%nat -> mask <> 0 ->
+   digest (sk_params sk') <> digest (sk_params sk)).
+Proof. intros cf pre. exact (prefix_compare_accepts_tampered_digest cf pre). Qed.
+Print Assumptions C17_fact_full_digest_needed.
+
+(** Rests on: (W) Zero maps every key byte to 0 and keeps the parameters, the
+    two passphrase facts; no law. *)
+Theorem C17_zero_then_rederive : forall pre kdf hash pw s n r p sk,
+  new_secret_key_c snacl_facts pre kdf hash pw (Some s) n r p = Ok sk ->
   Forall (fun b => b = 0) (sk_key (sk_zero sk)) /\
-  derive_key kdf hash (sk_zero sk) pw = (sk, None).
-Proof.
-  intros kdf hash pw s n r p sk H. split.
-  - exact (proj1 (sk_zero_key sk)).
-  - exact (derive_key_accepts_creator kdf hash pw s n r p sk (sk_zero sk) H (sk_zero_params sk)).
-Qed.
+  derive_key_c snacl_facts pre kdf hash (sk_zero sk) pw = (sk, None).
+Proof. intros pre. exact (c_zero_then_rederive snacl_facts pre eq_refl eq_refl). Qed.
 Print Assumptions C17_zero_then_rederive.
 
-(** The parameter codec (no cryptographic premise): 88 bytes exactly; every
-    in-range parameter set round-trips; every input of another length is
-    rejected, every 88-byte input accepted; the encoding is canonical
-    (Marshal inverts Unmarshal on byte strings). *)
+(** The parameter codec: 88 bytes exactly; every in-range parameter set
+    round-trips; every input of another length is rejected, every 88-byte
+    input accepted; the encoding is canonical (Marshal inverts Unmarshal on
+    byte strings).
+    Rests on: (W) only (the transcribed layout <salt 32><digest 32><N><R><P>
+    little-endian; arithmetic proved for all values); no law, no code fact.
+    That Marshal / Unmarshal of the real code have this layout: (C), byte for
+    byte on every pass case. *)
 Theorem C17_params_codec :
   (forall p, length (marshal_params p) = 88%nat) /\
   (forall p, params_in_range p -> unmarshal_params (marshal_params p) = Ok p) /\
@@ -182,7 +268,8 @@ Print Assumptions C17_params_codec.
 (** The 64-bit little-endian field codec, for every value (no bound):
     decoding n encoded bytes gives the value modulo 256^n; encoding what was
     decoded from bytes gives the bytes; Go's int <-> uint64 conversions
-    round-trip on the int range. *)
+    round-trip on the int range.
+    Rests on: arithmetic only. *)
 Theorem C17_le_codec :
   (forall n v, le_value (le_bytes n v) = v mod 256 ^ N.of_nat n) /\
   (forall l, wf_bytes l -> le_bytes (length l) (le_value l) = l) /\
@@ -198,51 +285,90 @@ Print Assumptions C17_le_codec.
 
 (** After a restart: the stored parameters decode to the same parameters,
     the same passphrase re-derives the same key and is accepted, a different
-    one (different HMAC key block, see above) is rejected. *)
-Theorem C17_restart : forall kdf hash,
+    one (different HMAC key block, see above) is rejected.
+    Rests on: (L) law_kdf_inj, law_hash_inj (IDEALISED), law_kdf_domain
+    (exact) for the rejection; (W) the codec and the two passphrase facts. *)
+Theorem C17_restart : forall pre kdf hash,
   law_kdf_inj kdf hash -> law_kdf_domain kdf -> law_hash_inj hash ->
-  forall pw s n r p sk, new_secret_key kdf hash pw (Some s) n r p = Ok sk ->
+  forall pw s n r p sk, new_secret_key_c snacl_facts pre kdf hash pw (Some s) n r p = Ok sk ->
     params_in_range (sk_params sk) ->
     exists sk0, unmarshal fresh_sk (marshal sk) = Ok sk0 /\ sk_params sk0 = sk_params sk /\
-      derive_key kdf hash sk0 pw = (sk, None) /\
+      derive_key_c snacl_facts pre kdf hash sk0 pw = (sk, None) /\
       forall pw', hmac_key_block hash pw' <> hmac_key_block hash pw ->
-                  snd (derive_key kdf hash sk0 pw') = Some ErrInvalidPassword.
-Proof. exact restart_rederives. Qed.
+                  snd (derive_key_c snacl_facts pre kdf hash sk0 pw') = Some ErrInvalidPassword.
+Proof. intros pre. exact (c_restart snacl_facts pre eq_refl eq_refl). Qed.
 Print Assumptions C17_restart.
 
 (** Any modification of a single byte of the stored parameters (salt,
     digest, N, R or P; in particular every single-bit flip) makes DeriveKey
-    reject even the correct passphrase. *)
-Theorem C17_params_tamper : forall kdf hash,
+    reject even the correct passphrase.
+    Rests on: (L) law_kdf_inj, law_hash_inj (IDEALISED); (W) the codec and
+    the two passphrase facts - with a digest prefix compared it is FALSE
+    (C17_fact_full_digest_needed).  Real code: (C), every bit of the 88
+    bytes. *)
+Theorem C17_params_tamper : forall pre kdf hash,
   law_kdf_inj kdf hash -> law_hash_inj hash ->
-  forall pw s n r p sk i mask sk', new_secret_key kdf hash pw (Some s) n r p = Ok sk ->
+  forall pw s n r p sk i mask sk', new_secret_key_c snacl_facts pre kdf hash pw (Some s) n r p = Ok sk ->
     params_in_range (sk_params sk) -> (i < 88)%nat -> mask <> 0 ->
     wf_bytes (xor_at (marshal sk) i mask) ->
     unmarshal fresh_sk (xor_at (marshal sk) i mask) = Ok sk' ->
-    snd (derive_key kdf hash sk' pw) = Some ErrInvalidPassword \/
-    snd (derive_key kdf hash sk' pw) = Some ErrKdf.
-Proof. exact tampered_params_rejected. Qed.
+    snd (derive_key_c snacl_facts pre kdf hash sk' pw) = Some ErrInvalidPassword \/
+    snd (derive_key_c snacl_facts pre kdf hash sk' pw) = Some ErrKdf.
+Proof. intros pre. exact (c_params_tamper snacl_facts pre eq_refl eq_refl). Qed.
 Print Assumptions C17_params_tamper.
 
 (** waddrmgr.Manager.Decrypt adds nothing but key selection and error
     wrapping: for the three key types it is Decrypt under the selected key
     (so every theorem above transfers, with ErrCrypto around the error), and
-    a locked manager refuses the private and script keys without data. *)
+    a locked manager refuses the private and script keys without data.
+    Rests on: (W) only; it RESTATES the definition of [mgr_decrypt_c]
+    (selectCryptoKey unfolded) and has no content beyond the transcription -
+    whether Manager.Decrypt is that: (C), the mgr cases. *)
 Theorem C17_manager_wrapper : forall open locked kt ks c,
   (kt = 0 \/ kt = 1 \/ kt = 2 ->
-   mgr_decrypt open locked kt ks c =
+   mgr_decrypt_c snacl_facts open locked kt ks c =
    if locked && negb (kt =? 2) then MErr MErrLocked
-   else match decrypt open (mgr_key_of kt ks) c with
+   else match decrypt_c snacl_facts open (mgr_key_of kt ks) c with
         | Ok m => MOk m
         | Err e => MErr (MErrCrypto e)
         end) /\
-  (2 < kt -> mgr_decrypt open locked kt ks c = MErr MErrInvalidKeyType).
+  (2 < kt -> mgr_decrypt_c snacl_facts open locked kt ks c = MErr MErrInvalidKeyType).
 Proof.
-  intros open locked kt ks c. split.
+  intros open locked kt ks c.
+  rewrite (mgr_decrypt_c_checked snacl_facts open locked kt ks c eq_refl).
+  rewrite (decrypt_c_checked snacl_facts open (mgr_key_of kt ks) c eq_refl). split.
   - exact (mgr_decrypt_spec open locked kt ks c).
   - exact (mgr_decrypt_invalid_type open locked kt ks c).
 Qed.
 Print Assumptions C17_manager_wrapper.
+
+(** waddrmgr's passphrase checks.  A manager whose master keys were made from
+    the public passphrase [pub] and the private passphrase [priv]: Open
+    (public), Unlock of a locked manager and ChangePassphrase's
+    old-passphrase check accept a passphrase iff it has the HMAC key block of
+    the respective passphrase, and answer "wrong passphrase" (not another
+    error, never success) otherwise; Unlock of an already unlocked manager
+    accepts the private passphrase itself and nothing else.
+    Rests on: (L) the four kdf / hash laws (law_hash_inj also stands for the
+    salted SHA-512 of the unlocked path: IDEALISED); (W) the transcription of
+    loadManager / Unlock / ChangePassphrase's error mapping and the two
+    passphrase facts.  Real managers: (C), the mgrpass cases. *)
+Theorem C17_manager_passphrase : forall pre kdf hash,
+  law_kdf_inj kdf hash -> law_kdf_hmac kdf hash -> law_kdf_domain kdf -> law_hash_inj hash ->
+  forall pub priv s1 s2 n r p n' r' p' skpub skpriv st,
+    new_secret_key_c snacl_facts pre kdf hash pub (Some s1) n r p = Ok skpub ->
+    new_secret_key_c snacl_facts pre kdf hash priv (Some s2) n' r' p' = Ok skpriv ->
+    sk_params (mp_pub st) = sk_params skpub -> sk_params (mp_priv st) = sk_params skpriv ->
+    mp_priv_pw st = priv ->
+    forall op pw',
+      let same := match op with
+                  | OpUnlockUnlocked => pw' = priv
+                  | _ => hmac_key_block hash pw' = hmac_key_block hash (mgr_pw_base op pub priv)
+                  end in
+      (mgr_pw_check snacl_facts pre kdf hash op st pw' = PwAccepted <-> same) /\
+      (~ same -> mgr_pw_check snacl_facts pre kdf hash op st pw' = PwWrong).
+Proof. intros pre. exact (mgr_pw_check_exact snacl_facts pre eq_refl eq_refl). Qed.
+Print Assumptions C17_manager_passphrase.
 
 (** Non-vacuity: the toy primitives satisfy every law used above. *)
 Theorem C17_laws_satisfiable :
@@ -317,3 +443,60 @@ Proof.
   vm_compute. repeat split; try reflexivity.
   all: repeat constructor.
 Qed.
+
+(** The three "fact needed" theorems are not vacuous either: the toy instance
+    of the three mutated wrappers (the mutations registered as
+    seeded changes of C17), evaluated.
+    - Open's result ignored: a flipped bit, another key and a truncation all
+      "decrypt" (to the empty string);
+    - passphrase trimmed of trailing LF (10) / lower-cased ('A' = 65 -> 97)
+      before the kdf: P ++ "\n" resp. the other case is accepted, and the
+      unchanged wrapper rejects both;
+    - digest compared on its first 16 bytes: the stored parameters with bit 0
+      of digest byte 20 (marshalled byte 52) flipped are accepted with the
+      creating passphrase, a flip in byte 3 is still rejected. *)
+Definition mut_unchecked : code_facts :=
+  {| cf_pw_unchanged := true; cf_digest_cmp := None; cf_open_checked := false |}.
+Definition mut_pre : code_facts :=
+  {| cf_pw_unchanged := false; cf_digest_cmp := None; cf_open_checked := true |}.
+Definition mut_prefix16 : code_facts :=
+  {| cf_pw_unchanged := true; cf_digest_cmp := Some 16%nat; cf_open_checked := true |}.
+Fixpoint trim_lf (pw : bytes) : bytes :=
+  match pw with
+  | [] => []
+  | b :: r => match trim_lf r with [] => if b =? 10 then [] else [b] | r' => b :: r' end
+  end.
+Definition lower (pw : bytes) : bytes :=
+  map (fun b => if (65 <=? b) && (b <=? 90) then b + 32 else b) pw.
+Example C17_mutants_refute :
+  let key := map N.of_nat (seq 1 32) in
+  let key' := map N.of_nat (seq 2 32) in
+  let nonce := map N.of_nat (seq 101 24) in
+  let s := map N.of_nat (seq 201 32) in
+  let c := t_encrypt_with key nonce [7; 8; 9] in
+  let new cf pre pw := new_secret_key_c cf pre (toy_kdf toy_hash) toy_hash pw (Some s) 2 1 1 in
+  let derive cf pre sk pw := snd (derive_key_c cf pre (toy_kdf toy_hash) toy_hash sk pw) in
+  decrypt_c mut_unchecked toy_open key (flip_bit c 30 0) = Ok [] /\
+  decrypt_c mut_unchecked toy_open key' c = Ok [] /\
+  decrypt_c mut_unchecked toy_open key (firstn 30 c) = Ok [] /\
+  decrypt_c facts_ideal toy_open key (flip_bit c 30 0) = Err ErrDecryptFailed /\
+  match new mut_pre trim_lf [80], new mut_pre lower [80; 97], new facts_ideal trim_lf [80] with
+  | Ok sk1, Ok sk2, Ok sk3 =>
+    derive mut_pre trim_lf (sk_zero sk1) [80; 10] = None /\
+    derive mut_pre trim_lf (sk_zero sk1) [80; 32] = Some ErrInvalidPassword /\
+    derive mut_pre lower (sk_zero sk2) [112; 65] = None /\
+    derive facts_ideal trim_lf (sk_zero sk3) [80; 10] = Some ErrInvalidPassword
+  | _, _, _ => False
+  end /\
+  match new mut_prefix16 trim_lf [] with
+  | Ok sk =>
+    match unmarshal fresh_sk (flip_bit (marshal sk) 52 0), unmarshal fresh_sk (flip_bit (marshal sk) 35 0) with
+    | Ok sk1, Ok sk2 =>
+      derive mut_prefix16 trim_lf sk1 [] = None /\
+      derive mut_prefix16 trim_lf sk2 [] = Some ErrInvalidPassword /\
+      derive facts_ideal trim_lf sk1 [] = Some ErrInvalidPassword
+    | _, _ => False
+    end
+  | Err _ => False
+  end.
+Proof. vm_compute. repeat split; reflexivity. Qed.
